@@ -574,11 +574,13 @@ def parEval (cfg : Cfg) (o : Orc) (job : Job) : List (Nat × List V) :=
 /-- The fragment of the composition theorem `parEval_perm_seqEval`. Excluded (order- or
     deployment-sensitive, see Props/C01.lean): `keyBy` (no repartitioning: equal keys are co-located
     only on a single replica), count windows, `zip`, keyed join (needs co-partitioning of two
-    streams), loops; and the stages whose proof is not finished. -/
+    streams), loops; and the stages whose composition proof is not finished (reductions, the keyed
+    two-phase aggregations `group_by_fold/reduce/sum/count` — their stage law is
+    `keyed_twoPhase` —, joins, broadcast). -/
 def Kind.orderInsensitive : Kind → Bool
   | .iter _ | .par .. | .map .. | .filter .. | .fmap .. | .shuffle _ | .repl .. | .repart ..
   | .groupBy .. | .kmap .. | .kfilter .. | .kfold .. | .unkey _ | .dropKey _ | .fold .. | .foldA ..
-  | .gbFold .. | .gbSum .. | .gbCount .. | .merge .. | .route .. | .sink _ => true
+  | .merge .. | .route .. | .sink _ => true
   | _ => false
 
 def orderInsensitive (job : Job) : Bool := job.all fun n => n.kind.orderInsensitive
